@@ -326,6 +326,12 @@ func init() {
 						spec.ReplaceExt(gen.ExtPolicies(gen.OIDPolEV))
 						sh.dns = names
 					}
+					if si%5 == 2 {
+						// a subscriber certificate that is a TLS server certificate by its POLICY only (an EKU extension
+						// without serverAuth; the reserved policy OID first, a private one behind it)
+						spec.ReplaceExt(gen.ExtEKU(false, gen.OIDEkuClient))
+						spec.ReplaceExt(gen.ExtPolicies([]string{gen.OIDPolDV, gen.OIDPolOV, gen.OIDPolIV}[si%3], "1.3.6.1.4.1.55555.1.1"))
+					}
 					subj := []gen.ATV{gen.A(gen.OIDC, "US"), gen.A(gen.OIDO, "Example Org")}
 					if sh.cn != "" {
 						subj = append(subj, gen.A(gen.OIDCN, sh.cn))
